@@ -24,8 +24,10 @@ POOLS = {
     "underscore": ["_", "a", "a1"],
     "fields": ["text", "text_content", "type"],
     "fields2": ["p_attr", "r_type", "p"],
+    "xmlnsish": ["a", "b"],
+    "attrcase": ["ID", "Id", "item"],
 }
-ATTRS = {"default": ["p"], "fields": ["text", "type"], "fields2": ["p", "type"], "prefixed": ["xmlns:n", "n:p"]}
+ATTRS = {"xmlnsish": ["xml:lang", "x:p", "xmlns:n", "xmlnsx:q"], "attrcase": ["id", "Id"], "default": ["p"], "fields": ["text", "type"], "fields2": ["p", "type"], "prefixed": ["xmlns:n", "n:p"]}
 
 
 def atom(ch):
@@ -175,7 +177,8 @@ def render_pools(rep, pid, tier, pools, relevant, opkinds=("add", "text", "optio
     rep.add(tags_seen=dict(total_tags))
 
 
-def random_trees(rep, pid, tier, relevant, n=None, ops=40, opts="two", extra_opts=0, pool=None, api_trace=False, remove=1):
+def random_trees(rep, pid, tier, relevant, n=None, ops=40, opts="two", extra_opts=0, pool=None, api_trace=False, remove=1,
+                 kinds=None):
     """impl -> spec beyond the bounds: random operation sequences, judged by RenderTrace (and ApiTrace)"""
     n = n or (150 if tier == "quick" else 3000)
     rtrace = os.path.join(c.OUT, "traces", "%s-render-random.ndjson" % pid)
@@ -184,6 +187,8 @@ def random_trees(rep, pid, tier, relevant, n=None, ops=40, opts="two", extra_opt
             "--extra-opts", extra_opts, "--remove", remove]
     if pool:
         args += ["--pool", ",".join(pool)]
+    if kinds:
+        args += ["--kinds", ",".join(kinds)]
     if api_trace:
         args += ["--trace", atrace]
     s = c.harness(args)
